@@ -51,6 +51,20 @@ def run(ctx):
         c["pts"] = dense
         cases.append(c)
     _tempo.judge(ctx, cases, "C12", "seeded dense sweeps", queries=_queries)
+    # charts whose later tempo events sit hours and days into the chart
+    cases = []
+    for k in range(ctx.pick(60, 1500)):
+        res, tempo, pts = tm.marathon_map(r)
+        dense = set(pts)
+        for tk, _ in tempo:
+            for d in range(-2, 3):
+                if tk + d >= 0:
+                    dense.add(tk + d)
+        dense = sorted(dense)
+        c = tm.chart_case_from_map(r, f"C12-day{k}", res, tempo, dense)
+        c["pts"] = dense
+        cases.append(c)
+    _tempo.judge(ctx, cases, "C12", "seeded maps with tempo changes days into the chart", queries=_queries)
     ctx.assumptions += [
         "strictness is required only when n*res <= 3*10^10 for every tempo of the chart (a tick lasts >= 2 microseconds)",
         "observations are sorted by tick by the harness; TLC checks the sort and decides all pairs through adjacent pairs",
